@@ -15,6 +15,23 @@ def wire_of(fields, binary):
     return s + b"OK\n"
 
 
+def take(q, d):
+    """One step of a double-ended iterator over the remaining items q: f/b = next/next_back, digit k = nth(k), letter A+k = nth_back(k)."""
+    if d == "f":
+        return q.pop(0) if q else None
+    if d == "b":
+        return q.pop() if q else None
+    if d.isdigit():
+        for _ in range(int(d)):
+            if q:
+                q.pop(0)
+        return q.pop(0) if q else None
+    for _ in range(ord(d) - 65):
+        if q:
+            q.pop()
+    return q.pop() if q else None
+
+
 def spec_run(fields, binary, ops):
     """Independent reference: the ordered multimap over the wire pairs."""
     l = list(fields)
@@ -45,7 +62,7 @@ def spec_run(fields, binary, ops):
             q = list(l)
             items = []
             for d in arg:
-                items.append(sp(q.pop(0) if d == "f" and q else q.pop() if d == "b" and q else None))
+                items.append(sp(take(q, d)))
             out.append("p=[" + ",".join(items) + "]")
         elif name == "into":
             q = list(l)
@@ -55,7 +72,7 @@ def spec_run(fields, binary, ops):
                     items.append("B" + so(binary))
                     binary = None
                 else:
-                    items.append(sp(q.pop(0) if d == "f" and q else q.pop() if d == "b" and q else None))
+                    items.append(sp(take(q, d)))
             out.append("m=[" + ",".join(items) + "]")
             break
     return " ; ".join(out)
@@ -87,10 +104,30 @@ def gen(ctx):
             elif r < 0.6:
                 ops.append("takebin")
             else:
-                ops.append("iter:" + "".join(rng.choice("fb") for _ in range(rng.choice([1, 2, nf, nf + 2]))))
+                ops.append("iter:" + "".join(rng.choice("fbfbfb0123AB") for _ in range(rng.choice([1, 2, nf, nf + 2]))))
         if rng.random() < 0.6:
-            ops.append("into:" + "".join(rng.choice("fbbft") for _ in range(rng.choice([1, nf, nf + 3]))))
+            ops.append("into:" + "".join(rng.choice("fbbftfb012AC") for _ in range(rng.choice([1, nf, nf + 3]))))
         add_frame(fields, binary, ops)
+    # large frames (beyond any small-vector or compaction threshold) with many removals in arbitrary order
+    for _ in range(30 if ctx.tier == "quick" else 400):
+        nf = rng.choice([31, 32, 33, 40, 64, 100])
+        keys = ["k" + chr(97 + i // 26) + chr(97 + i % 26) for i in range(nf)]
+        fields = [(k, str(i)) for i, k in enumerate(keys)]
+        order = list(keys)
+        mode = rng.choice(["back", "random", "every-other", "front"])
+        if mode == "back":
+            order.reverse()
+        elif mode == "random":
+            rng.shuffle(order)
+        elif mode == "every-other":
+            order = keys[::2] + keys[1::2]
+        ops = []
+        for k in order[: rng.choice([nf // 2, nf // 2 + 2, nf - 1, nf])]:
+            ops.append("get:" + hexs(k))
+            if rng.random() < 0.15:
+                ops.append(rng.choice(["len", "empty", "iter:fb", "find:" + hexs(rng.choice(keys))]))
+        ops += ["len", "iter:" + "f" * 5 + "b" * 5, "into:" + "fb" * 8]
+        add_frame(fields, rng.choice([None, b"x"]), ops)
     if ctx.tier == "thorough":
         # exhaustive small scope: all frames with <= 3 fields over 3 keys, all op sequences of length <= 4 over a small op alphabet
         alpha = ["find:" + hexs("a"), "get:" + hexs("a"), "get:" + hexs("A"), "len", "iter:fb", "iter:bbf", "takebin"]
@@ -114,13 +151,13 @@ def gen(ctx):
         wire += b"ACK [7@1] {x} m\n" if err else b"OK\n"
         if nfr == 0 and not err:
             frames = [[]]
-        dirs = "".join(rng.choice("fb") for _ in range(rng.choice([1, nfr + 1, nfr + 3])))
+        dirs = "".join(rng.choice("fbfb0123AB") for _ in range(rng.choice([1, nfr + 1, nfr + 3])))
         seq = [("F", f) for f in frames] + ([("E", 7)] if err else [])
         items = []
         q = list(seq)
         for d in dirs:
             sz = len(q)
-            it = q.pop(0) if d == "f" and q else q.pop() if d == "b" and q else None
+            it = take(q, d)
             if it is None:
                 s = "~"
             elif it[0] == "E":
